@@ -160,6 +160,8 @@ def declarations(timeout=600):
                 stack.append([depth, kind, "", None])
                 continue
             name, sig = fm2.group(1), fm2.group(2)
+            if "ruint<6 + 1>" in sig and re.search(r"ruint<6(UL)?>", sig):
+                sig = sig.replace("ruint<6 + 1>", "ruint<K+1>")       # a one-limb specialisation with a double-width operand
             stack.append([depth, kind, name, None])
             head = " " + rest.split("'")[0]
             if " implicit" in head or " parent 0x" in head:
